@@ -63,9 +63,20 @@ def gen(rng, i):
     routes = {('app1', m.lower()): db for m, db in zip(names, split)}
     edits = []
     cur = spec
+    deleted = None
     for m in names:
-        kind = rng.choice(['add', 'add_initial', 'delete', 'change'])
-        if kind == 'add':
+        kind = rng.choice(['add', 'add_initial', 'delete', 'change', 'meta',
+                           'delete_model'])
+        if kind == 'delete_model' and (deleted or n < 3):
+            kind = 'meta'
+        if kind == 'meta':
+            # mutations that name a model but no field
+            e = {'op': 'change_meta', 'app': 'app1', 'model': m,
+                 'prop': 'index_together', 'value': [['v', 'w']]}
+        elif kind == 'delete_model':
+            e = {'op': 'delete_model', 'app': 'app1', 'model': m}
+            deleted = m
+        elif kind == 'add':
             e = {'op': 'add_field', 'app': 'app1', 'model': m, 'name': 'x',
                  'fdef': {'kind': 'Integer', 'null': True}}
         elif kind == 'add_initial':
@@ -80,7 +91,7 @@ def gen(rng, i):
         edits.append(e)
     renamed = None
     if rng.random() < 0.34:
-        m = rng.choice(names)
+        m = rng.choice([x for x in names if x != deleted])
         new = m + 'x'
         edits.append({'op': 'rename_model', 'app': 'app1', 'old': m,
                       'new': new,
@@ -130,8 +141,28 @@ def run_case(desc):
     proj = projlab.Project()
     files = {'default': 'd.db', 'other': 'o.db'}
     try:
+        # a third of the projects also ship a data evolution as
+        # per-database SQL files (evolutions/<database>_<label>.sql): each
+        # file only names a table of its own database
+        sql_target = {}
+        evolutions = [('e1', texts, {})]
+        survivors = [m for m in spec0['app1'] if m in spec1['app1'] or (
+            renamed and renamed[0] == m)]
+        if rng.random() < 0.34:
+            evolutions.append(('e2', [], {}))
+            for alias in ('default', 'other'):
+                mine = [m for m in survivors
+                        if routes[('app1', m.lower())] == alias]
+                if mine:
+                    sql_target[alias] = S.model_table(
+                        spec0, 'app1', sorted(mine)[0])
+            stats['per_database_sql'] = 1
         proj.write_app('app1', [spec0['app1'], spec1['app1']],
-                       [('e1', texts, {})], nv=[0, 1])
+                       evolutions, nv=[0, len(evolutions)])
+        for alias, table in sql_target.items():
+            with open(proj.path('app1', 'evolutions',
+                                '%s_e2.sql' % alias), 'w') as f:
+                f.write('UPDATE "%s" SET "v" = "v" + 100;\n' % table)
         proj.write_router(routes)
 
         def run(action, v, alias):
@@ -187,7 +218,10 @@ def run_case(desc):
             if proj.sha(files[other]) != sha_other:
                 items.append(dict(ctx, type='OTHER_DATABASE_FILE_CHANGED'))
             after = user_tables(proj, files[alias])
-            want = owned_by(spec1, routes, alias)
+            # (a failed run leaves V0 behind: the set of tables is then
+            # compared with what this database owned before)
+            want = owned_by(spec1 if ev['outcome']['ok'] else spec0, routes,
+                            alias)
             if set(after) != want:
                 items.append(dict(ctx, type='TABLES_WRONG',
                                   missing=sorted(want - set(after)),
@@ -216,6 +250,15 @@ def run_case(desc):
                                           expected=sorted(exp)))
                     if len(after[t].get('rows', [])) != 1:
                         items.append(dict(ctx, type='ROWS_LOST', table=t))
+                    elif sql_target:
+                        stats['sql_evolution_values_checked'] = stats.get(
+                            'sql_evolution_values_checked', 0) + 1
+                        exp_v = 105 if sql_target.get(alias) == t else 5
+                        if after[t]['rows'][0].get('v') != exp_v:
+                            items.append(dict(
+                                ctx, type='SQL_EVOLUTION_EFFECT', table=t,
+                                got=after[t]['rows'][0].get('v'),
+                                expected=exp_v))
     finally:
         proj.cleanup()
     dbs = set(routes.values())
